@@ -123,3 +123,73 @@ pub mod verif_kani {
         assert!(ok, "C11 failed read leaves the Wrath client decrypter untouched / as after the 4-byte attempt");
     }
 }
+
+// ---- C06: world-login glue of this module (proof function and key setup replaced by recording stubs = their proved contracts)
+#[cfg(kani)]
+pub mod verif_kani_c06 {
+    use super::*;
+    use core::sync::atomic::{AtomicU8, AtomicU32, AtomicUsize, Ordering};
+    use crate::normalized_string::verif_kani::verif_make;
+    static P: [AtomicU8; 20] = [const { AtomicU8::new(0) }; 20];
+    static SS: AtomicU32 = AtomicU32::new(0);
+    static CS: AtomicU32 = AtomicU32::new(0);
+    static KEY_OK: AtomicUsize = AtomicUsize::new(0);
+    static K: [AtomicU8; 40] = [const { AtomicU8::new(0) }; 40];
+    static NEW_CALLS: AtomicUsize = AtomicUsize::new(0);
+    fn proof_stub(_u: &NormalizedString, k: &SessionKey, server_seed: u32, client_seed: u32) -> Proof {
+        SS.store(server_seed, Ordering::Relaxed); CS.store(client_seed, Ordering::Relaxed);
+        let mut same = true; let mut i = 0; while i < 40 { same &= k.as_le_bytes()[i] == K[i].load(Ordering::Relaxed); i += 1; }
+        KEY_OK.store(same as usize, Ordering::Relaxed);
+        let mut p = [0u8; 20]; i = 0; while i < 20 { p[i] = P[i].load(Ordering::Relaxed); i += 1; } Proof::from_le_bytes(p)
+    }
+    fn new_stub(k: [u8; 40]) -> ServerCrypto {
+        let mut same = true; let mut i = 0; while i < 40 { same &= k[i] == K[i].load(Ordering::Relaxed); i += 1; }
+        NEW_CALLS.store(if same { 1 } else { 2 }, Ordering::Relaxed);
+        { use crate::rc4::verif_kani::verif_rc4; use super::inner_crypto::verif_kani::verif_inner; ServerCrypto { decrypt: super::decrypt::verif_kani::verif_server_dec(verif_inner(verif_rc4([0; 256], 0, 0))), encrypt: super::encrypt::verif_kani::verif_server_enc(verif_inner(verif_rc4([0; 256], 0, 0))) } }
+    }
+    fn new_stub_c(k: [u8; 40]) -> ClientCrypto {
+        let mut same = true; let mut i = 0; while i < 40 { same &= k[i] == K[i].load(Ordering::Relaxed); i += 1; }
+        NEW_CALLS.store(if same { 1 } else { 2 }, Ordering::Relaxed);
+        { use crate::rc4::verif_kani::verif_rc4; use super::inner_crypto::verif_kani::verif_inner; ClientCrypto { decrypt: super::decrypt::verif_kani::verif_client_dec(verif_inner(verif_rc4([0; 256], 0, 0)), [0; 4]), encrypt: super::encrypt::verif_kani::verif_client_enc(verif_inner(verif_rc4([0; 256], 0, 0))) } }
+    }
+    fn body(with_covers: bool) -> bool {
+        let name = verif_make(kani::any(), kani::any());
+        let key: [u8; 40] = kani::any(); let computed: [u8; 20] = kani::any(); let presented: [u8; 20] = kani::any();
+        let own: u32 = kani::any(); let peer: u32 = kani::any();
+        let mut i = 0; while i < 20 { P[i].store(computed[i], Ordering::Relaxed); i += 1; }
+        i = 0; while i < 40 { K[i].store(key[i], Ordering::Relaxed); i += 1; }
+        let seed = ProofSeed { seed: own };
+        let mut ok = seed.seed() == own;
+        let server: bool = kani::any();
+        if server {
+            let mut same = true; i = 0; while i < 20 { if presented[i] != computed[i] { same = false; } i += 1; }
+            match seed.into_server_header_crypto(&name, key, presented, peer) {
+                Ok(_) => { ok &= same && NEW_CALLS.load(Ordering::Relaxed) == 1; }
+                Err(e) => { ok &= !same && e.client_proof == presented && e.server_proof == computed && NEW_CALLS.load(Ordering::Relaxed) == 0; }
+            }
+            // the server passes (own seed, client seed)
+            ok &= SS.load(Ordering::Relaxed) == own && CS.load(Ordering::Relaxed) == peer && KEY_OK.load(Ordering::Relaxed) == 1;
+            if with_covers { kani::cover!(same); kani::cover!(!same); }
+        } else {
+            let (p, _c) = seed.into_client_header_crypto(&name, key, peer);
+            ok &= p == computed && NEW_CALLS.load(Ordering::Relaxed) == 1;
+            // the client passes (server seed, own seed)
+            ok &= SS.load(Ordering::Relaxed) == peer && CS.load(Ordering::Relaxed) == own && KEY_OK.load(Ordering::Relaxed) == 1;
+        }
+        ok
+    }
+    /// C06 (complete over proofs, keys, seeds): Ok iff whole 20-byte equality; Err carries both proofs and no crypto is built;
+    /// seeds are passed in the right roles; seed() returns the field; the crypto object is keyed with the presented session key.
+    #[kani::proof]
+    #[kani::unwind(42)]
+    #[kani::stub(crate::vanilla_header::internal::calculate_world_server_proof, proof_stub)]
+    #[kani::stub(crate::wrath_header::ServerCrypto::new, new_stub)]
+    #[kani::stub(crate::wrath_header::ClientCrypto::new, new_stub_c)]
+    pub fn c06_wrath_world_login() { assert!(body(true), "C06 world-login: Ok iff whole-proof equality, Err carries both proofs, seeds in the right roles"); }
+    #[kani::proof]
+    #[kani::unwind(42)]
+    #[kani::stub(crate::vanilla_header::internal::calculate_world_server_proof, proof_stub)]
+    #[kani::stub(crate::wrath_header::ServerCrypto::new, new_stub)]
+    #[kani::stub(crate::wrath_header::ClientCrypto::new, new_stub_c)]
+    pub fn c06_wrath_world_login_cex() { let ok = body(false); kani::cover!(!ok, "counterexample"); }
+}
